@@ -61,6 +61,13 @@ def run_common(ctx, prop_file, theorem_names):
                       {"theorem_or_correspondence": "Props/%s: %s" % (prop_file, ", ".join(theorem_names)),
                        "detail": (pr or {}).get("log", "")[-2000:], "hygiene": (pr or {}).get("hygiene"),
                        "unknown_axioms": (pr or {}).get("unknown_axioms")}, found_input=False)
+    if ctx.thorough and ok_make:
+        chk = vlib.coqchk_lib(ctx, "Sierra", ["Sem", "Corr", "Examples"])
+        ctx.cov["coqchk"] = {"axioms": chk["axioms"], "ok": chk["ok"]}
+        if not chk["ok"]:
+            ctx.violation("coqchk does not accept the compiled Sierra library or reports axioms",
+                          {"theorem_or_correspondence": "coqchk -o Sierra.*", "detail": chk["tail"]},
+                          found_input=False)
     for e in res["dump_errors"][:3]:
         ctx.violation("translator could not print an accepted program: " + e,
                       {"theorem_or_correspondence": "translator h15 (dump)", "detail": e}, found_input=False)
